@@ -437,3 +437,79 @@ def run_selftest(prop, rep, rule_fn, config='cmake-release'):
     from .dataflow import register_identity_functions
     register_identity_functions(load_program(config, root))
     return results
+
+# ---- wave 4 rules ------------------------------------------------------------------------------
+M('c19-trim-isspace', 'C19', 'src/utilities/qstring.c',
+  "    for (ss = str; *ss == ' ' || *ss == '\\t' || *ss == '\\r' || *ss == '\\n';\n            ss++)\n        ;\n\n    if (ss > str) {\n        size_t len = strlen(ss) + 1;",
+  "    for (ss = str; isspace((unsigned char) *ss);\n            ss++)\n        ;\n\n    if (ss > str) {\n        size_t len = strlen(ss) + 1;",
+  'W1', 'qstrtrim_head', 'isspace also strips VT and FF')
+M('c19-trim-drop-cr', 'C19', 'src/utilities/qstring.c',
+  "    for (se = str + strlen(str) - 1;\n            se >= str\n                    && (*se == ' ' || *se == '\\t' || *se == '\\r' || *se == '\\n');",
+  "    for (se = str + strlen(str) - 1;\n            se >= str\n                    && (*se == ' ' || *se == '\\t' || *se == '\\n');",
+  'W1', 'qstrtrim_tail', 'CR no longer trimmed at the tail')
+M('c19-upper-range', 'C19', 'src/utilities/qstring.c',
+  "        if (*cp >= 'a' && *cp <= 'z')\n            *cp -= 32;", "        if (*cp >= 'a' && *cp < 'z')\n            *cp -= 32;",
+  'W2', 'qstrupper', 'z left in lower case')
+M('c19-lower-delta', 'C19', 'src/utilities/qstring.c',
+  "        if (*cp >= 'A' && *cp <= 'Z')\n            *cp += 32;", "        if (*cp >= 'A' && *cp <= 'Z')\n            *cp += 31;",
+  'W2', 'qstrlower', 'wrong distance between the cases')
+M('c19-unchar-guard', 'C19', 'src/utilities/qstring.c',
+  "    if (len >= 2 && str[0] == head && str[len - 1] == tail) {", "    if (str[0] == head && str[len - 1] == tail) {",
+  'W4', 'qstrunchar', 'length guard dropped: str[len-1] on an empty string')
+M('c19-tok-signed-table', 'C19', 'src/utilities/qstring.c',
+  "    tokensp = tokenep = (char *) (str + *offset);\n    int numdel = strlen(delimiters);",
+  "    char seen[256];\n    memset(seen, 0, sizeof(seen));\n    tokensp = tokenep = (char *) (str + *offset);\n    int c0 = *tokensp;\n    seen[c0] = 1;\n    int numdel = strlen(delimiters);",
+  'W3', 'qstrtok', 'byte table indexed through an int holding a plain char')
+M('c08-removeobj-last', 'C08', 'src/containers/qlisttbl.c',
+  "    if (next == NULL) tbl->last = prev; // if the object is last one\n    else next->prev = prev;  // not the first one",
+  "    if (next != NULL) next->prev = prev;  // not the first one",
+  'DL1', 'qlisttbl_removeobj', 'tail pointer not updated when the last entry goes')
+M('c08-removeobj-relink', 'C08', 'src/containers/qlisttbl.c',
+  "    if (prev == NULL) tbl->first = next; // if the object is first one\n    else prev->next = next;  // not the first one",
+  "    if (prev == NULL) tbl->first = next; // if the object is first one",
+  'DL1', 'qlisttbl_removeobj', 'predecessor keeps pointing at the removed entry')
+M('c08-hash-prefilter', 'C08', 'src/containers/qlisttbl.c',
+  "            if (tbl->namecmp(obj1->name, obj2->name) > 0) {", "            if (obj1->hash != obj2->hash && tbl->namecmp(obj1->name, obj2->name) > 0) {",
+  'L6', 'qlisttbl_sort', 'stored hash compared outside the matcher')
+M('c08-casematch-hash', 'C08', 'src/containers/qlisttbl.c',
+  "    if (!strcasecmp(obj->name, name)) {", "    if ((obj->hash == hash) && !strcasecmp(obj->name, name)) {",
+  'L6', 'namecasematch', 'case-insensitive matcher consults the case-sensitive hash')
+M('c08-load-decode-first', 'C08', 'src/containers/qlisttbl.c',
+  "        qstrtrim(data);\n        qstrtrim(name);\n        if (decode == true) qurl_decode(data);",
+  "        if (decode == true) qurl_decode(data);\n        qstrtrim(data);\n        qstrtrim(name);",
+  'L8', 'qlisttbl_load', 'escaped blanks trimmed after decoding')
+M('c08-load-inserttop', 'C08', 'src/containers/qlisttbl.c',
+  "        if (putdata(tbl, name, data, strlen(data) + 1, false) == true) {", "        if (qlisttbl_put(tbl, name, data, strlen(data) + 1) == true) {",
+  'L9', None, 'loader honours INSERTTOP again')
+M('c09-removeobj-first', 'C09', 'src/containers/qlist.c',
+  "    if (obj->prev == NULL)\n        list->first = obj->next;\n    else\n        obj->prev->next = obj->next;",
+  "    if (obj->prev != NULL)\n        obj->prev->next = obj->next;",
+  'DL1', 'remove_obj', 'head pointer not updated when the first element goes')
+M('c09-size-zeroed', 'C09', 'src/containers/qlist.c',
+  "    // copy data\n    void *data;\n    if (newmem == true) {\n        data = malloc(obj->size);", "    if (remove == true && newmem == false) obj->size = 0;\n    // copy data\n    void *data;\n    if (newmem == true) {\n        data = malloc(obj->size);",
+  'E3', 'get_at', 'node size changed behind the byte total')
+M('c09-getobj-signed', 'C09', 'src/containers/qlist.c',
+  "    if (index >= list->num) {\n        errno = ERANGE;\n        return NULL;\n    }\n\n    // detect faster scan direction",
+  "    if (index >= (int) list->num) {\n        errno = ERANGE;\n        return NULL;\n    }\n\n    // detect faster scan direction",
+  'E5', 'get_obj', 'range test moved to the signed domain')
+M('c18-md5-padlen', 'C18', 'src/internal/md5/md5c.c',
+  "    padLen = (idx < 56) ? (56 - idx) : (120 - idx);", "    padLen = (idx <= 56) ? (56 - idx) : (120 - idx);",
+  'H7', 'MD5Pad', 'zero padding bytes when 56 bytes are buffered')
+M('c18-md5-padtable', 'C18', 'src/internal/md5/md5c.c',
+  "static unsigned char PADDING[64] = { 0x80, 0, 0,", "static unsigned char PADDING[64] = { 0x80, 0, 1,",
+  'H7', None, 'padding table entry changed')
+M('c18-md5-bits-late', 'C18', 'src/internal/md5/md5c.c',
+  "    /* Save number of bits */\n    Encode(bits, context->count, 8);\n", "",
+  'H7', 'MD5Pad', 'bit count never encoded')
+M('c17-argv-errmsg', 'C17', 'src/extensions/qaconf.c',
+  "                EXITLOOP(\"Quotation hasn't properly closed.\");", "                EXITLOOP(\"Quotation hasn't properly closed in '%s'.\", cbdata->argv[0]);",
+  'CU4', '_parse_inline', 'argv[0] read before any cell was stored')
+M('c17-varstr-alloc', 'C17', 'src/extensions/qconfig.c',
+  "            char *varstr = (char *) malloc(varlen + 3 + 1);", "            char *varstr = (char *) malloc(varlen + 1);",
+  'BW1', '_parsestr', 'buffer sized for the name only, reused for the whole token')
+M('c17-cbdata-alloc', 'C17', 'src/extensions/qaconf.c',
+  "        cbdata = (qaconf_cbdata_t*) malloc(\n                sizeof(qaconf_cbdata_t));", "        cbdata = (qaconf_cbdata_t*) malloc(\n                sizeof(qaconf_cbdata_t *));",
+  'BW1', '_parse_inline', 'record allocated with the size of a pointer, then cleared with the size of the record')
+M('c20-scan-break', 'C20', 'src/extensions/qconfig.c',
+  "            if (openedbrakets > 0)\n                continue;  // found internal ${", "            if (openedbrakets > 0)\n                break;  // found internal ${",
+  'B5', '_parsestr', 'scan abandoned at a nested reference')
